@@ -134,6 +134,7 @@ def write_foreign_ovf(path, dialect, pmin, pmax, n, array, labels=None, unit="A/
         L.append("#")
     flat = np.ascontiguousarray(array.transpose(2, 1, 0, 3)).reshape(-1, dim)
     out = bytearray()
+    layout = None
     if rep == "txt":
         L.append("# Begin: Data Text")
         out += ("\n".join(L) + "\n").encode()
@@ -145,13 +146,17 @@ def write_foreign_ovf(path, dialect, pmin, pmax, n, array, labels=None, unit="A/
         nb = 4 if rep == "bin4" else 8
         L.append(f"# Begin: Data Binary {nb}")
         out += ("\n".join(L) + "\n").encode()
+        header = len(out)
         end = ">" if version == 1 else "<"
         code = "f" if nb == 4 else "d"
         out += struct.pack(end + code, 1234567.0 if nb == 4 else 123456789012345.0)
         out += flat.astype(end + ("f4" if nb == 4 else "f8")).tobytes()
+        data_end = len(out)
         out += f"\n# End: Data Binary {nb}\n# End: Segment\n".encode()
+        layout = {"header": header, "check": header + nb, "data": data_end, "size": len(out), "chunks": []}
     with open(path, "wb") as f:
         f.write(bytes(out))
+    return layout
 
 
 # --------------------------------------------------------------------------------------
